@@ -8,6 +8,12 @@ Third family (engine OBJECTS): the real `tis.def_globals` / `factory.create_engi
 instances (turtlemd engines, several instances per engine name); every in-flight job's engines are
 resolved exactly as `tis.select_shoot` does (`ENGINES[name][eng_idx]`) and the OBJECTS (and the exe
 directories) of concurrently in-flight jobs must be pairwise distinct.
+Extension pass (props/c03_micro.py): every op is also observed at SUB-STEP granularity (snapshot after every write to
+`_locks`/`_trajs`/`state` inside treat_output / prep_md_items) → compared with the model's traces (`treatm`/`prepm`) and
+judged directly (exactly the other jobs' ensembles + what the job at hand has not released / has already locked are busy;
+busy slots are only written by add_traj of their own job, swaps only move idle slots); every history is replayed event by
+event through `sysStep` (`sysev`); histories driven by the REAL scheduler() with a deep-copying runner; load through the REAL
+load_paths; `REPEX_state.__init__` against `blank`; direct cases for create_engines / assign_engines.
 Fourth family (restarts with an observer): restart chains with `output.screen = 1` and with the
 probability matrix read right after `load_paths` (a legal observation that fills the `_last_prob`
 cache); the matrix the code hands to `choice` at every pick must have no mass on a busy row/column.
@@ -21,6 +27,8 @@ import os
 import random
 
 import repex_tie as T
+
+from props import c03_micro as M
 
 
 def predicates(ctx, sim, label):
@@ -169,6 +177,10 @@ def make_sim(ctx, q, workers, rng, image, orig_cwd=None):
         T.ScriptedGen.log = log
     sim.image = None
     sim.busy_picks, sim.eng_faults, sim.alias_faults = [], [], []
+    if q["engmap"] == "rich":
+        sim.rich_init = True    # initial paths valid far beyond their own ensemble: off-diagonal picks at once → sort_trajstate swaps
+    M.install(sim)      # sub-step recorder on this instance (swap / lock / unlock / _trajs writes)
+    sim.treat_k = {}
     if q["engmap"] == "own0" and q["n_ens"] >= 3:
         # heterogeneous engines: [0-] runs on an engine of its own (exactly ONE instance, whatever the workers),
         # the other ensembles share a second engine name
@@ -249,9 +261,11 @@ def drive(sim, q, rng, stop_after, image, weights):
 
     def prep(md):
         locks_before = [bool(x) for x in sim.st._locks]
+        sim.rec.begin("prep", [o for o in inflight if o is not md], None)
         try:
             md = sim.op_prep(md)
         finally:
+            sim.rec.end(len(sim.lines) - 1)
             _check_draws(sim, locks_before, getattr(sim, "draws_by_op", {}).get(len(sim.lines) - 1, []), len(sim.lines) - 1)
         if q["alias"]:
             alias_probe(sim, md, inflight + [md])
@@ -262,7 +276,9 @@ def drive(sim, q, rng, stop_after, image, weights):
             tis, occ, sim.eng_faults = real_engines(sim)
             if not sim.eng_faults:
                 sim.st.engine_occ = occ
-        if image is None:
+        if not q["wf"]:
+            M.load_real(sim, image, weights)      # the REAL load_paths (shooting moves: 0/1 weights from ordermax)
+        elif image is None:
             sim.load_initial()
         else:
             sim.load_initial([T.FakePath(pn, weights[pn]) for pn in image["active"]],
@@ -288,12 +304,19 @@ def drive(sim, q, rng, stop_after, image, weights):
                 raise RuntimeError("loop() keeps answering True beyond the requested number of steps")
             if not inflight:
                 raise RuntimeError("loop() answers True but no job is in flight")
-            md = inflight.pop(rng.randrange(len(inflight)))
+            kidx = rng.randrange(len(inflight))
+            md = inflight.pop(kidx)
             status = "ACC" if rng.random() < q["acc"] else "REJ"
             ws = sim.random_new_weights(md, rng)
-            md = sim.op_treat(md, status, ws)
+            sim.rec.begin("treat", list(inflight), md)
+            try:
+                md = sim.op_treat(md, status, ws)
+            finally:
+                sim.rec.end(len(sim.lines) - 1)
+                sim.treat_k[len(sim.lines) - 1] = kidx
             snap("treat")
             if stop_after is not None and sim.st.cstep >= stop_after:
+                sim.stopped_by_harness = True
                 sim.image = T.read_image(sim.tmp)
                 sim.weights_by_pn = {pn: v["weights"] for pn, v in sim.st.traj_data.items()}
                 break
@@ -308,28 +331,132 @@ def drive(sim, q, rng, stop_after, image, weights):
     sim.inflight_end = inflight
 
 
+def drive_sched(sim, q, rng):
+    """one history driven by the REAL `infretis.scheduler.scheduler(config)`: its two loops, its `if future:`, its
+    resubmission rule and its deepcopy per worker run as they are; `setup_internal` hands it this Sim's REPEX_state
+    (behind a recording proxy), `setup_runner` a runner that 'pickles' (deep-copies) every submitted md_items and a
+    futures list whose as_completed() returns the jobs in an order drawn by the check"""
+    import infretis.scheduler as S
+    snaps, inflight = [], []
+    sim.snaps = snaps
+    pending = {}
+
+    def snap(tag):
+        d = sim.op_dump()
+        held = []
+        for md in inflight:
+            dirs = sorted({os.path.realpath(dd["exe_dir"]) for dd in md["picked"].values() if "exe_dir" in dd})
+            held.append((md["pin"], [(e, dd["pn_old"]) for e, dd in md["picked"].items()],
+                         {e: dict(dd["eng_idx"]) for e, dd in md["picked"].items()}, os.path.basename(md["w_folder"]), None, dirs))
+        snaps.append((tag, d, held))
+
+    class Fut:
+        def __init__(self, md):
+            self.md = md
+
+        def result(self):
+            return self.md
+
+    class Runner:
+        def submit_work(self, md):
+            return Fut(copy.deepcopy(md))      # the pickling boundary: the worker gets a copy, the result is that copy
+
+        def stop(self):
+            pass
+
+    class Futures:
+        def __init__(self):
+            self.l = []
+
+        def add(self, f):
+            self.l.append(f)
+            inflight.append(f.md)
+            snap("prep")
+
+        def as_completed(self):
+            if not self.l:
+                return None
+            kidx = rng.randrange(len(self.l))
+            f = self.l.pop(kidx)
+            inflight.pop(kidx)
+            pending["k"] = kidx
+            return f
+
+    class Proxy:
+        """what scheduler() touches of the state: initiate, prep_md_items, loop, treat_output, cstep, workers, tsteps"""
+        cstep = property(lambda self: sim.st.cstep)
+        workers = property(lambda self: sim.st.workers)
+        tsteps = property(lambda self: sim.st.tsteps)
+
+        def initiate(self):
+            return sim.op_initiate()
+
+        def loop(self):
+            return sim.op_loop()
+
+        def prep_md_items(self, md):
+            locks_before = [bool(x) for x in sim.st._locks]
+            sim.rec.begin("prep", list(inflight), None)
+            try:
+                return sim.op_prep(md)
+            finally:
+                sim.rec.end(len(sim.lines) - 1)
+                _check_draws(sim, locks_before, getattr(sim, "draws_by_op", {}).get(len(sim.lines) - 1, []), len(sim.lines) - 1)
+
+        def treat_output(self, md):
+            status = "ACC" if rng.random() < q["acc"] else "REJ"
+            ws = sim.random_new_weights(md, rng)
+            sim.rec.begin("treat", list(inflight), md)
+            try:
+                md = sim.op_treat(md, status, ws)       # the worker's part (status, trial paths) + the real treat_output
+            finally:
+                sim.rec.end(len(sim.lines) - 1)
+                sim.treat_k[len(sim.lines) - 1] = pending.get("k")
+            snap("treat")
+            return md
+
+    base = {"mc_moves": sim.st.mc_moves, "interfaces": sim.st.interfaces, "cap": None}
+    o_int, o_run = S.setup_internal, S.setup_runner
+    error = None
+    try:
+        M.load_real(sim) if not q["wf"] else sim.load_initial()
+        snap("loaded")
+        S.setup_internal = lambda config: (base, Proxy())
+        S.setup_runner = lambda state: (Runner(), Futures())
+        S.scheduler(sim.cfg)
+    except Exception as e:  # noqa: BLE001
+        error = e
+    finally:
+        S.setup_internal, S.setup_runner = o_int, o_run
+    sim.error = error
+    sim.inflight_end = inflight
+
+
 def run_segment(ctx, q, workers, rng, stop_after, image, weights):
     sim = make_sim(ctx, q, workers, rng, image)
     sim.error = None
-    for _ in drive(sim, q, rng, stop_after, image, weights):
-        pass
+    if q["sched"]:
+        drive_sched(sim, q, rng)
+    else:
+        for _ in drive(sim, q, rng, stop_after, image, weights):
+            pass
     sim.close()
     return sim
 
 
 def norm(params):
-    """(n_ens, workers, steps, seed, wf, eng_types, acc_p[, with_model, restarts, screen, probe, engines, wseq, engmap, alias])
-    wseq: workers of the restarted segments (default: unchanged)"""
-    p = list(params) + [True, [], 0, False, False, [], "", False][max(0, len(params) - 7):]
+    """(n_ens, workers, steps, seed, wf, eng_types, acc_p[, with_model, restarts, screen, probe, engines, wseq, engmap, alias, sched])
+    wseq: workers of the restarted segments (default: unchanged); sched: the history is driven by the REAL scheduler()"""
+    p = list(params) + [True, [], 0, False, False, [], "", False, False][max(0, len(params) - 7):]
     return dict(n_ens=p[0], workers=p[1], steps=p[2], seed=p[3], wf=p[4], et=p[5], acc=p[6], with_model=bool(p[7]),
                 restarts=[int(x) for x in p[8]], screen=int(p[9]), probe=bool(p[10]), engines=bool(p[11]),
-                wseq=[int(x) for x in p[12]], engmap=str(p[13]), alias=bool(p[14]))
+                wseq=[int(x) for x in p[12]], engmap=str(p[13]), alias=bool(p[14]), sched=bool(p[15]))
 
 
 def label_of(q, ctx):
     return (f"n_ens={q['n_ens']} workers={q['workers']} steps={q['steps']} seed={q['seed']} wf={q['wf']} eng_types={q['et']} "
             f"acc_p={q['acc']} restarts={q['restarts']} screen={q['screen']} probe={q['probe']} real_engines={q['engines']} "
-            f"wseq={q['wseq']} engmap={q['engmap']} alias={q['alias']} ctxseed={ctx.seed}")
+            f"wseq={q['wseq']} engmap={q['engmap']} alias={q['alias']} sched={q['sched']} ctxseed={ctx.seed}")
 
 
 def judge(ctx, q, sims, label, with_model, outs, family):
@@ -354,6 +481,10 @@ def judge(ctx, q, sims, label, with_model, outs, family):
             predicates(ctx, sim, lab)
         except Exception as e:  # noqa: BLE001  (a state the predicates cannot even read is a failing input, not a harness crash)
             ctx.fail("C03:state-unreadable", f"{type(e).__name__}: {e}", {"history": lab, "params": getattr(sim, "params", None), "ctxseed": ctx.seed})
+        try:
+            M.substep_predicates(ctx, sim, lab)
+        except Exception as e:  # noqa: BLE001
+            ctx.fail("C03:state-unreadable", f"sub-steps: {type(e).__name__}: {e}", {"history": lab, "params": getattr(sim, "params", None), "ctxseed": ctx.seed})
         for what in getattr(sim, "alias_faults", [])[:3]:
             ctx.fail("C03:md-items-aliased", what, {"history": lab, "params": getattr(sim, "params", None), "ctxseed": ctx.seed})
         if with_model:
@@ -376,7 +507,8 @@ def one(ctx, params, with_model, outs):
         if stop is None or sim.error is not None or sim.image is None:
             break
         image, weights = sim.image, sim.weights_by_pn
-    family = "engines" if q["engines"] else ("restart" if q["restarts"] else ("alias" if q["alias"] else "plain"))
+    family = "real-scheduler" if q["sched"] else (
+        "engines" if q["engines"] else ("restart" if q["restarts"] else ("alias" if q["alias"] else "plain")))
     judge(ctx, q, sims, label, with_model, outs, family)
     return sims[-1]
 
@@ -422,7 +554,13 @@ def run(ctx):
                 "and without output.screen=1 / an observation of `prob` after load, also with more / fewer workers than at the stop; "
                 "boundary runs (steps <, =, > workers; maximal workers; [0-] on an engine of its own); md_items aliasing probes; two "
                 "samplers interleaved in one process; histories on the REAL engine instances "
-                "(def_globals → create_engines, turtlemd); distinct = distinct (W, slot order, locks, in-flight jobs) snapshots")
+                "(def_globals → create_engines, turtlemd); histories driven by the REAL scheduler() (setup_internal / setup_runner "
+                "replaced by a recording proxy state and a deep-copying runner, completion order drawn by the check); "
+                "every op also observed at SUB-STEP granularity (a snapshot after every write to _locks/_trajs/state inside "
+                "treat_output / prep_md_items) and compared with the model's trace; every history also replayed event by event "
+                "through the model's sysStep; load through the REAL load_paths (sh moves); direct cases for create_engines "
+                "(random ensemble_engines × workers) and assign_engines (random occupation tables incl. exhausted ones); "
+                "distinct = distinct (W, slot order, locks, in-flight jobs) snapshots")
     plans = []
     for n_ens in (2, 3, 4, 5):
         for w in range(1, n_ens):
@@ -477,6 +615,18 @@ def run(ctx):
         n_ens = rng.randint(3, 6)
         plans.append((n_ens, rng.randint(2, n_ens - 1) if n_ens > 3 else 2, rng.randint(10, 20), rng.randint(0, 9), i % 2 == 1,
                       rng.randint(1, 2), 0.7, n_ens <= 5, [] if i % 2 else [rng.randint(1, 4)], 0, False, False, [], "", True))
+    # initial paths that reach beyond their own ensemble + high acceptance: many off-diagonal picks, sort_trajstate has to swap
+    for i in range(6 if ctx.quick else 40):
+        n_ens = rng.randint(4, 5)
+        plans.append((n_ens, rng.randint(1, n_ens - 1), rng.randint(20, 40), rng.randint(0, 9), i % 2 == 1, 1, 0.95, True,
+                      [] if i % 3 else [rng.randint(2, 8)], 0, False, False, [], "rich", False, False))
+    # the REAL scheduler() function drives the history (its loops, its resubmission rule, its deepcopy per worker)
+    for i in range(8 if ctx.quick else 60):
+        n_ens = rng.randint(2, 6)
+        w = rng.randint(1, n_ens - 1)
+        steps = rng.choice([1, w, w + 1, rng.randint(6, 24)])
+        plans.append((n_ens, w, steps, rng.randint(0, 9), i % 3 == 2, rng.randint(1, 2), rng.choice([0.3, 0.7, 0.95]), n_ens <= 5,
+                      [], 0, False, False, [], "", False, True))
     outs = []
     for p in plans:
         one(ctx, p, p[7] and ctx._driver_ok, outs)
@@ -487,8 +637,12 @@ def run(ctx):
         pb = (nb, rng.randint(1, nb - 1), rng.randint(8, 16), rng.randint(0, 9), i % 2 == 1, rng.randint(1, 2), 0.7, True)
         one(ctx, ("two", pa, pb), ctx._driver_ok, outs)
     for sim, label in outs:
-        model = ctx.driver(sim.lines)
-        T.compare(ctx, sim, model, label)
+        model = ctx.driver(M.micro_lines(sim))       # `prepm` / `treatm`: the answers of prep / treat plus the sub-step trace
+        plain, traces = M.split_answers(model)
+        if T.compare(ctx, sim, plain, label) == 0:
+            if M.compare_traces(ctx, sim, traces, label) == 0:
+                M.compare_events(ctx, sim, label)       # the same history through `sysStep` (one scheduler event per line)
+    M.factory_cases(ctx)
     ctx.sample({"history": outs[0][1] if outs else "-", "first_ops": outs[0][0].lines[:10] if outs else []})
     if outs:
         s = outs[-1][0]
@@ -508,6 +662,11 @@ def run(ctx):
         "model is functional, so equality with the model after every op is equality with a fresh object's answer (tie-only)",
         "aliasing of handed-out md_items (between jobs, and with the sampler's own lists) is tie-only: the model's jobs are values",
         "two set-ups in one process share the module global tis.ENGINES by design (one sampler per process); not part of this check",
+        "sub-step snapshots are taken through wrappers around the instance's own swap/lock/unlock and a list subclass for _trajs; "
+        "`state[ens,:] = valid` is observed on entry of the following unlock(); an exception inside an op ends its trace (compared as error kind)",
+        "the pickling boundary of the process pool is emulated by copy.deepcopy of every submitted md_items (real-scheduler family); "
+        "object identity of the ens dicts / md_items between jobs is tie-only (alias probes), the model's jobs are values",
+        "select_shoot's resolution ENGINES[name][idx] is modelled as Factory.engineObj; the tie resolves the objects itself, select_shoot is not executed",
     ]
     ctx.assumptions += [a for a in new_assumptions if a not in ctx.assumptions]   # run() is re-entered on escalation
 
